@@ -405,11 +405,15 @@ PADAL_B = [(None, None), (0, None), (2, None), (None, 4)]
 _TR = {}
 
 
+def _pcrs(c):
+    return pyproj.CRS.from_epsg(c) if isinstance(c, int) else pyproj.CRS.from_user_input(c)
+
+
 def fresh_tr(e_from, e_to):
     """pyproj transformer built by the harness from EPSG codes (independent of odc.geo.crs caches)."""
     k = (e_from, e_to)
     if k not in _TR:
-        _TR[k] = pyproj.Transformer.from_crs(pyproj.CRS.from_epsg(e_from), pyproj.CRS.from_epsg(e_to), always_xy=True)
+        _TR[k] = pyproj.Transformer.from_crs(_pcrs(e_from), _pcrs(e_to), always_xy=True)
     return _TR[k]
 
 
@@ -538,6 +542,142 @@ def _gen_B(kind, locs, places, padal, variants):
 
 
 # =================================================================================================
+# space G: geographic rasters that overhang the valid lon/lat range (the documented clamp)
+# =================================================================================================
+# overlap.GbxPointTransform.__call__: "for global datasets in 4326 pixel edges sometimes reach just outside of the valid
+# region ... those coordinates can then not be converted properly to destination crs" -> coordinates of the geographic
+# raster are clamped to lon [-180,180], lat [-90,90] before they are projected.  What is claimed: the planning still works
+# for such rasters.  Judged here: every destination pixel centre that is itself a place on earth (lon/lat inside the valid
+# range; for a projected destination: the inverse projection of the centre is finite and inside the range).  A centre
+# outside the range (rows beyond a pole, columns beyond +-180) is neither required nor forbidden: the clamp exists so that
+# the raster's edges can be converted, nothing says such pixels receive data.  The projected raster lies inside the
+# projection's own valid area (no clamp is documented for projected coordinates; PROJ answers off-earth points of
+# Mollweide / Equal Earth with inf or with a wrapped longitude): cylindrical projections: the world rectangle inset by
+# 0.1%; Equal Earth: |x| <= 0.99 * half length of the pole line, all latitudes; Mollweide: a rectangle inscribed in the
+# ellipse (0.6 x 0.8 of the half axes, up to ~61 deg latitude).  A projected destination centre is additionally required
+# to survive the round trip projected -> lon/lat -> projected (1e-6 of a pixel), else it is not a place on earth.
+MOLL = "+proj=moll +lon_0=0 +datum=WGS84 +units=m +no_defs"
+PROJ_G = {"4087": 4087, "6933": 6933, "8857": 8857, "moll": MOLL, "3857": 3857}
+RES_G = (2.5, 5.0, 10.0)
+LAT_G = ("none", "N-half", "N-3px", "S-half", "S-3px", "both-half")
+LON_G = ("none", "W-half", "W-2px", "E-half", "E-2px", "both-half")
+PDEG_G = (5.0, 10.0)  # projected pixel: world rectangle divided into 360/pdeg columns (and 180/pdeg rows)
+PADAL_G = [(None, None), (0, None)]
+MAX_G = (48, 96)
+
+
+def geo_raster(res, latc, lonc):
+    """(shape, affine6) of a lon/lat raster with the requested overhang, at most 48x96 pixels (anchored at the
+    overhanging side when the whole globe does not fit)."""
+    ovn = {"N-half": res / 2, "N-3px": 3 * res, "both-half": res / 2}.get(latc, 0.0)
+    ovs = {"S-half": res / 2, "S-3px": 3 * res, "both-half": res / 2}.get(latc, 0.0)
+    ovw = {"W-half": res / 2, "W-2px": 2 * res, "both-half": res / 2}.get(lonc, 0.0)
+    ove = {"E-half": res / 2, "E-2px": 2 * res, "both-half": res / 2}.get(lonc, 0.0)
+    ny = min(MAX_G[0], int(round(180 / res)) + {"N-3px": 3, "S-3px": 3, "both-half": 1}.get(latc, 0))
+    nx = min(MAX_G[1], int(round(360 / res)) + {"W-2px": 2, "E-2px": 2, "both-half": 1}.get(lonc, 0))
+    top = (-90.0 - ovs) + ny * res if latc.startswith("S-") else 90.0 + ovn
+    left = (180.0 + ove) - nx * res if lonc.startswith("E-") else -180.0 - ovw
+    return (ny, nx), (res, 0.0, left, 0.0, -res, top)
+
+
+@functools.lru_cache(maxsize=None)
+def proj_raster(pname, pdeg):
+    """On-earth rectangle of the projection (see above) divided into pixels of about pdeg degrees at the equator."""
+    t = fresh_tr(4326, PROJ_G[pname])
+    x0, y0 = t.transform(180.0, 0.0)[0], t.transform(0.0, 90.0)[1]
+    if pname == "3857":
+        fx, fy, y0 = 0.999, 0.999, x0
+    elif pname == "8857":
+        fx, fy = 0.99 * t.transform(180.0, 90.0)[0] / x0, 0.999
+    elif pname == "moll":
+        fx, fy = 0.6, 0.8
+    else:
+        fx, fy = 0.999, 0.999
+    xmax, ymax = fx * x0, fy * y0
+    nx = max(2, int(round(360 / pdeg * fx)))
+    ny = max(2, int(round((360 if pname == "3857" else 180) / pdeg * fy)))
+    return (ny, nx), (2 * xmax / nx, 0.0, -xmax, 0.0, -2 * ymax / ny, ymax)
+
+
+def _in_range(lon, lat):
+    with np.errstate(invalid="ignore"):
+        return np.isfinite(lon) & np.isfinite(lat) & (np.abs(lon) <= 180 + 1e-9) & (np.abs(lat) <= 90 + 1e-9)
+
+
+def gen_G():
+    for direction in ("geo-src", "geo-dst"):
+        for pname in PROJ_G:
+            for res in RES_G:
+                for latc in LAT_G:
+                    for lonc in LON_G:
+                        for pdeg in PDEG_G:
+                            for pad, al in PADAL_G:
+                                yield (direction, pname, res, latc, lonc, pdeg, pad, al)
+
+
+def run_G(case):
+    direction, pname, res, latc, lonc, pdeg, pad, al = case
+    gshape, gA = geo_raster(res, latc, lonc)
+    pshape, pA = proj_raster(pname, pdeg)
+    pc = PROJ_G[pname]
+    pcs = f"EPSG:{pc}" if isinstance(pc, int) else pc
+    geo = GeoBox(gshape, Affine(*gA), "EPSG:4326")
+    prj = GeoBox(pshape, Affine(*pA), pcs)
+    src, dst = (geo, prj) if direction == "geo-src" else (prj, geo)
+    kw = {}
+    if pad is not None:
+        kw["padding"] = pad
+    if al is not None:
+        kw["align"] = al
+    info = OV.compute_reproject_roi(src, dst, **kw)
+    sA6, dA6 = affine6(src.transform), affine6(dst.transform)
+
+    def to_src(x, y):
+        """harness mapping dst pixel -> src pixel with the documented clamp; also says which points are on earth"""
+        wx, wy = pix_to_world(dA6, np.asarray(x, dtype="float64"), np.asarray(y, dtype="float64"))
+        if direction == "geo-dst":
+            ok = _in_range(wx, wy)
+            ux, uy = fresh_tr(4326, pc).transform(np.clip(wx, -180, 180), np.clip(wy, -90, 90))
+        else:
+            ux, uy = fresh_tr(pc, 4326).transform(wx, wy)
+            ux, uy = np.asarray(ux), np.asarray(uy)
+            ok = _in_range(ux, uy)
+            bx, by = fresh_tr(4326, pc).transform(np.where(ok, ux, 0.0), np.where(ok, uy, 0.0))
+            with np.errstate(invalid="ignore"):
+                ok &= (np.abs(bx - wx) <= 1e-6 * abs(dA6[0])) & (np.abs(by - wy) <= 1e-6 * abs(dA6[4]))
+        px, py = world_to_pix(sA6, np.asarray(ux, dtype="float64"), np.asarray(uy, dtype="float64"))
+        return px, py, ok
+
+    xx, yy = centres(dst.shape)
+    TX, TY, ok = to_src(xx, yy)
+    SX, SY = np.where(ok, TX, np.nan), np.where(ok, TY, np.nan)
+
+    exp = None
+    if _roi_ok(info.roi_dst) and not _area0(info.roi_dst):
+        cy_ = (info.roi_dst[0].start + info.roi_dst[0].stop) / 2
+        cx_ = (info.roi_dst[1].start + info.roi_dst[1].stop) / 2
+        px, py, okc = to_src([cx_ + 1, cx_ - 1, cx_, cx_], [cy_, cy_, cy_ + 1, cy_ - 1])
+        if okc.all() and np.isfinite(px).all() and np.isfinite(py).all():
+            c0 = ((px[0] - px[1]) / 2, (py[0] - py[1]) / 2)
+            c1 = ((px[2] - px[3]) / 2, (py[2] - py[3]) / 2)
+            n0 = math.hypot(*c0)
+            if n0 > 0:
+                exp = (n0, abs(c0[0] * c1[1] - c0[1] * c1[0]) / n0)
+
+    tag = f"overhang:{direction}:{pname}:lat={latc}:lon={lonc}:pad={pad}:align={al}"
+    what = (f"src=GeoBox({tuple(src.shape)}, Affine{tuple(sA6)}, {src.crs}); dst=GeoBox({tuple(dst.shape)}, Affine{tuple(dA6)}, {dst.crs}); "
+            f"compute_reproject_roi(src, dst, {kw}) [geographic raster: {res} deg pixels, lat overhang {latc}, lon overhang {lonc}]")
+    r = R()
+    n_need = judge(r, tag, what, info, tuple(src.shape), tuple(dst.shape), SX, SY, False, exp, 1e-3)
+    # transform.back against the harness mapping (with the documented clamp) wherever that is finite
+    check_transform(r, tag, what, info, tuple(dst.shape), TX, TY)
+    n_out = int((~ok).sum())
+    r.outcome = f"{direction}:{pname}:{latc}:{lonc}:{_cover(info, tuple(dst.shape), n_need)}:{'off-earth' if n_out else 'all-on-earth'}"
+    r.nontrivial = n_need > 0
+    return r
+
+
+# =================================================================================================
 def slices(tier):
     th = tier == "thorough"
     s_all = (0, 1, 2)
@@ -567,6 +707,9 @@ def slices(tier):
         e1.Slice("B-continental", lambda: _gen_B("C", (0,), list(PLACE_B)[:6], [(None, None), (0, None), (1, None)],
                                                  ("north-up", "dst-rot") if th else ("north-up",)), run_B,
                  "same pairs, one large-extent configuration per region (10-140 km pixels, destination up to 48x48, 6 overlapping placements): boundary curvature"),
+        e1.Slice("G-overhang", gen_G, run_G,
+                 "lon/lat rasters (2.5/5/10 deg, <= 48x96) overhanging the poles and/or +-180 by half a pixel or several, as source "
+                 "and as destination, against world rasters in EPSG:4087, 6933, 8857, Mollweide, 3857: the documented lon/lat clamp"),
     ]
     return out
 
@@ -587,7 +730,9 @@ def main(ctx):
         "B": {"pairs": [f"{a}>{b}" for a, b, _ in PAIRS], "locations": REGIONS, "src_shape": SRC_B,
               "scale_classes": {k: list(v) for k, v in K_B.items()}, "placements": PLACE_B, "padding_align": PADAL_B,
               "continental": CONTINENTAL},
-        "max_raster": "48x48", "eps_px": EPS,
+        "G": {"projections": list(PROJ_G), "geo_pixel_deg": RES_G, "lat_overhang": LAT_G, "lon_overhang": LON_G,
+              "projected_pixel_deg_equiv": PDEG_G, "padding_align": PADAL_G, "directions": ["geo-src", "geo-dst"], "max_geo_raster": MAX_G},
+        "max_raster": "48x48 (A, B); 48x96 geographic / 72x72 projected (G)", "eps_px": EPS,
     }
     ctx.assumptions = [
         "a pyproj.Transformer built in the harness from EPSG codes (always_xy) is the reference for CRS maths",
@@ -600,6 +745,11 @@ def main(ctx):
         "destination->source Jacobian; same-CRS cases are built without shear so this equals the column norms",
         "non-linear scale is compared at the centre of the reported roi_dst (the 'overlap'); nothing is compared when it is empty",
         "only an upper bound on read_shrink is stated by the property; no lower bound is demanded",
+        "overhanging lon/lat rasters (slice G): the code documents that coordinates of a geographic raster are clamped to "
+        "lon [-180,180], lat [-90,90] so that edges reaching outside can still be converted; the oracle applies the same clamp in "
+        "its own mapping and judges every destination centre that is a place on earth (lon/lat in range; projected destination: "
+        "inverse projection finite and in range); centres outside the range are neither required nor forbidden; projected rasters "
+        "are inset 0.1% from the projection's world rectangle (no clamp is documented for projected coordinates)",
     ]
     sl = slices(ctx.tier)
     if ctx.only:
